@@ -2,6 +2,7 @@ package main
 
 import (
 	"bufio"
+	"bytes"
 	"fmt"
 	"net"
 	"net/http"
@@ -70,6 +71,9 @@ func c09Session(c *Ctx, server bool, pmd bool, fault string, k int, tag string) 
 		r1 := rawSend(conn, sendOp{API: "message", Opcode: 1, Slices: [][]byte{[]byte("hello")}})
 		r2 := rawSend(conn, sendOp{API: "file", Opcode: 2, Reader: newChunkReader([][]byte{make([]byte, 131072), make([]byte, 131072), []byte("end")}, "sep")})
 		r3 := rawSend(conn, sendOp{API: "async", Opcode: 2, Slices: [][]byte{[]byte("async")}})
+		r4 := rawSend(conn, sendOp{API: "writev", Opcode: 2, Slices: [][]byte{[]byte("one slice through the vectored call")}})
+		r5 := rawSend(conn, sendOp{API: "writevasync", Opcode: 1, Slices: [][]byte{[]byte("vectored, "), []byte("asynchronous")}})
+		results = append(results, r4, r5)
 		_ = conn.SetDeadline(time.Time{})
 		results = append(results, r1, r2, r3)
 		tap.feed(cutChunks(c, stream, 2)...)
@@ -102,8 +106,11 @@ func c09Session(c *Ctx, server bool, pmd bool, fault string, k int, tag string) 
 		return fmt.Sprintf("transport closed=%v, Close called %d times", closed, n), "fault-transport-close", replay
 	}
 	before := tap.numWrites()
-	for _, api := range []string{"message", "writev", "file", "ping"} {
+	for _, api := range []string{"message", "writev", "file", "ping", "broadcast"} {
 		op := sendOp{API: api, Opcode: 2, Slices: [][]byte{[]byte("late")}}
+		if api == "broadcast" { // large enough to be compressed: the frame is built before the connection is looked at
+			op.Slices = [][]byte{bytes.Repeat([]byte("late broadcast "), 100)}
+		}
 		if api == "file" {
 			op.Reader = newChunkReader([][]byte{[]byte("late")}, "sep")
 		}
@@ -111,7 +118,7 @@ func c09Session(c *Ctx, server bool, pmd bool, fault string, k int, tag string) 
 		if !runWithTimeout(5*time.Second, func() { r = rawSend(conn, op) }) {
 			return fmt.Sprintf("%s after teardown did not return within 5 s (a writer left behind)", api), "fault-late-write-hang", replay
 		}
-		if r != 1 {
+		if r != 1 && !(api == "broadcast" && (r == 0 || r == 100)) { // Broadcast only queues: its result is not the write's
 			return fmt.Sprintf("%s after teardown returned %d", api, r), "fault-late-write", replay
 		}
 	}
